@@ -20,6 +20,11 @@ pub trait Message: Sized {}
 #[verifier::external_body] pub struct StatsStub { _p: u8 }
 #[verifier::external_body] pub struct ActorProcessingErr { _p: u8 }
 #[verifier::external_body] pub struct JobOptions { _p: u8 }
+#[verifier::external_body] pub struct MessagingErr { _p: u8 }
+impl From<Box<MessagingErr>> for ActorProcessingErr {
+    #[verifier::external_body]
+    fn from(e: Box<MessagingErr>) -> ActorProcessingErr { unimplemented!() }
+}
 pub uninterp spec fn opts_expired(o: JobOptions) -> bool;
 #[verifier::external_body] #[verifier::reject_recursive_types(K)] #[verifier::reject_recursive_types(M)]
 pub struct ReplyPort<K, M> { _p: core::marker::PhantomData<(K, M)> }
@@ -33,6 +38,50 @@ pub struct Pool<K, M> { _p: core::marker::PhantomData<(K, M)> }
 impl<K, M> View for Pool<K, M> { type V = Seq<int>; uninterp spec fn view(&self) -> Seq<int>; }
 
 pub uninterp spec fn jid_of<K, M>(k: K, m: M) -> int;
+
+// ---- per-worker record as the factory sees it (contracts of its methods: unit worker) ----
+#[verifier::external_body] pub struct ActorId { _p: u8 }
+impl View for ActorId { type V = int; uninterp spec fn view(&self) -> int; }
+#[verifier::external_body] #[verifier::reject_recursive_types(K)] #[verifier::reject_recursive_types(M)]
+pub struct WorkerRef<K, M> { _p: core::marker::PhantomData<(K, M)> }
+impl<K, M> WorkerRef<K, M> {
+    pub uninterp spec fn aid(&self) -> int;
+    #[verifier::external_body]
+    pub fn get_id(&self) -> (r: ActorId) ensures r@ == self.aid() { unimplemented!() }
+}
+#[verifier::reject_recursive_types(K)] #[verifier::reject_recursive_types(M)]
+pub struct WorkerProperties<K, M> { pub wid: WorkerId, pub actor: WorkerRef<K, M>, pub is_draining: bool, pub ghost working: bool }
+#[verifier::external_body] pub struct ActorIndex { _p: u8 }
+#[verifier::external_body] #[verifier::reject_recursive_types(K)] #[verifier::reject_recursive_types(M)]
+pub struct OccupiedEntry<'a, K, M> { _p: core::marker::PhantomData<&'a (K, M)> }
+#[verifier::external_body] #[verifier::reject_recursive_types(K)] #[verifier::reject_recursive_types(M)]
+pub struct VacantEntry<'a, K, M> { _p: core::marker::PhantomData<&'a (K, M)> }
+#[verifier::reject_recursive_types(K)] #[verifier::reject_recursive_types(M)]
+pub enum PoolEntry<'a, K, M> { Occupied(OccupiedEntry<'a, K, M>), Vacant(VacantEntry<'a, K, M>) }
+#[verifier::external_body] #[verifier::reject_recursive_types(K)] #[verifier::reject_recursive_types(M)]
+pub struct PoolValues<'a, K, M> { _p: core::marker::PhantomData<&'a (K, M)> }
+impl<'a, K, M> OccupiedEntry<'a, K, M> {
+    pub uninterp spec fn wid(&self) -> usize;
+    pub uninterp spec fn aid(&self) -> int;
+}
+impl<K, M> Pool<K, M> {
+    /// every worker record in the pool is available (idle, empty queue)
+    pub uninterp spec fn all_available(&self) -> bool;
+    pub uninterp spec fn has(&self, w: WorkerId) -> bool;
+    /// the record stored under `w` is marked draining (scheduled for removal by a shrink)
+    pub uninterp spec fn draining(&self, w: WorkerId) -> bool;
+}
+impl<'a, K, M> PoolValues<'a, K, M> {
+    pub uninterp spec fn pool_all_available(&self) -> bool;
+    /// A-std: Iterator::all over the values; the predicate must be "is this worker available"
+    #[verifier::external_body]
+    pub fn all<F: FnMut(&'a WorkerProperties<K, M>) -> bool>(&mut self, f: F) -> (r: bool)
+        requires
+            forall|w: &'a WorkerProperties<K, M>| f.requires((w,)),
+            forall|w: &'a WorkerProperties<K, M>, b: bool| f.ensures((w,), b) ==> b == !w.working,
+        ensures r == old(self).pool_all_available(),
+    { unimplemented!() }
+}
 
 /// A-std: derive(PartialEq) on the fieldless enum DrainState
 pub assume_specification [<DrainState as PartialEq>::eq] (a: &DrainState, b: &DrainState) -> (r: bool)
@@ -53,8 +102,22 @@ pub mod vocab {
         Discard(DiscardReason, int),
         Accepted,
         Rejected(int),
+        /// WorkerProperties::worker_complete(key) on worker `wid` (contract: unit worker)
+        WorkerComplete(usize),
+        /// the worker record `wid` (whose actor has id `a`) was taken out of the pool map
+        PoolRemove(usize, int),
+        /// the actor id `a` was taken out of the actor -> worker index
+        IndexRemove(int),
+        /// the worker actor with id `a` was told to stop
+        StopActor(int),
+        /// worker `wid` was marked draining / not draining
+        SetDraining(usize, bool),
+        /// the router was told that worker `wid` is (un)available
+        RouterAvail(usize, bool),
+        /// try_route_next_active_job(hint)
+        RouteNext(Option<usize>),
     }
-    pub enum Kind { DiscardTtl, DiscardLoadshed, DiscardRateLimited, DiscardShutdown, Accepted, Rejected }
+    pub enum Kind { DiscardTtl, DiscardLoadshed, DiscardRateLimited, DiscardShutdown, Accepted, Rejected, WorkerComplete, PoolRemove, IndexRemove, StopActor, SetDraining, RouterAvail, RouteNext }
     pub open spec fn kind_of(e: Effect) -> Kind {
         match e {
             Effect::Discard(DiscardReason::TtlExpired, _) => Kind::DiscardTtl,
@@ -63,6 +126,13 @@ pub mod vocab {
             Effect::Discard(DiscardReason::Shutdown, _) => Kind::DiscardShutdown,
             Effect::Accepted => Kind::Accepted,
             Effect::Rejected(_) => Kind::Rejected,
+            Effect::WorkerComplete(_) => Kind::WorkerComplete,
+            Effect::PoolRemove(_, _) => Kind::PoolRemove,
+            Effect::IndexRemove(_) => Kind::IndexRemove,
+            Effect::StopActor(_) => Kind::StopActor,
+            Effect::SetDraining(_, _) => Kind::SetDraining,
+            Effect::RouterAvail(_, _) => Kind::RouterAvail,
+            Effect::RouteNext(_) => Kind::RouteNext,
         }
     }
     }
@@ -109,6 +179,10 @@ pub trait Queue<TKey: JobKey, TMsg: Message>: Sized {
 
 /// R9 stand-in for the `Router` trait: ASSUMED contract of `route_message` (proved for RateLimitedRouter in unit ratelim-router)
 pub trait Router<TKey: JobKey, TMsg: Message>: Sized {
+    /// ghost history of availability notifications the router received
+    spec fn notes(&self) -> Seq<(WorkerId, bool)>;
+    fn on_worker_availability_change(&mut self, wid: WorkerId, available: bool)
+        ensures final(self).notes() == old(self).notes().push((wid, available));
     fn route_message(&mut self, job: Job<TKey, TMsg>, pool_size: usize, worker_hint: Option<WorkerId>, worker_pool: &mut Pool<TKey, TMsg>)
         -> (r: Result<RouteResult<TKey, TMsg>, ActorProcessingErr>)
         ensures
@@ -116,7 +190,8 @@ pub trait Router<TKey: JobKey, TMsg: Message>: Sized {
             r matches Ok(RouteResult::Handled) ==> final(worker_pool)@ == old(worker_pool)@.push(jid(job)),
             r matches Ok(RouteResult::Backlog(j)) ==> final(worker_pool)@ == old(worker_pool)@ && jid(j) == jid(job) && j.accepted == job.accepted && j.options == job.options && j.key == job.key,
             r matches Ok(RouteResult::RateLimited(j)) ==> final(worker_pool)@ == old(worker_pool)@ && jid(j) == jid(job) && j.accepted == job.accepted && j.options == job.options && j.key == job.key,
-            r is Err ==> final(worker_pool)@ == old(worker_pool)@;
+            r is Err ==> final(worker_pool)@ == old(worker_pool)@,
+            final(self).notes() == old(self).notes();
 }
 
 pub open spec fn lam_of(s: DiscardSettings) -> Option<(usize, DiscardMode)> {
@@ -130,6 +205,14 @@ pub open spec fn lam_of(s: DiscardSettings) -> Option<(usize, DiscardMode)> {
 pub open spec fn refusal(reason: DiscardReason, id: int, handler: bool, port: bool) -> Seq<Effect> {
     (if handler { seq![Effect::Discard(reason, id)] } else { Seq::<Effect>::empty() })
     + (if port { seq![Effect::Rejected(id)] } else { Seq::<Effect>::empty() })
+}
+/// every pool-changing effect added after `a` concerns a worker id in [lo, hi)
+pub open spec fn only_wids_in(a: Seq<Effect>, b: Seq<Effect>, lo: int, hi: int) -> bool {
+    forall|i: int| a.len() <= i < b.len() ==> (match #[trigger] b[i] {
+        Effect::PoolRemove(w, _) => lo <= w < hi,
+        Effect::SetDraining(w, _) => lo <= w < hi,
+        _ => true,
+    })
 }
 pub open spec fn max_int(a: int, b: int) -> int { if a >= b { a } else { b } }
 } // verus!
@@ -167,6 +250,8 @@ impl StatsStub {
     pub fn job_rate_limited(&self, f: &String) { unimplemented!() }
     #[verus_verify(external_body)]
     pub fn new_job(&self, f: &String) { unimplemented!() }
+    #[verus_verify(external_body)]
+    pub fn job_completed(&self, f: &String, o: &JobOptions) { unimplemented!() }
 }
 
 #[verus_verify]
@@ -179,4 +264,98 @@ impl<TKey: JobKey, TMsg: Message> Job<TKey, TMsg> {
     #[verus_spec(ensures jid(*final(self)) == jid(*old(self)), final(self).key == old(self).key, final(self).accepted == old(self).accepted,
         expired(*final(self)) == expired(*old(self)))]
     pub fn set_factory_time(&mut self) { unimplemented!() }
+}
+
+#[verus_verify]
+impl<K: JobKey, M: Message> WorkerProperties<K, M> {
+    /// contract proved in unit worker (stale completion changes nothing; next job comes from the queue front)
+    #[verus_verify(external_body)]
+    #[verus_spec(r =>
+        with Tracked(log): Tracked<&mut EffectLog>
+        ensures final(log).s == old(log).s.push(Effect::WorkerComplete(old(self).wid)), final(self).wid == old(self).wid,
+            final(self).actor == old(self).actor, final(self).is_draining == old(self).is_draining,
+    )]
+    pub fn worker_complete(&mut self, key: K) -> Result<Option<JobOptions>, Box<MessagingErr>> { unimplemented!() }
+    #[verus_verify(external_body)]
+    #[verus_spec(r => ensures r == self.working)]
+    pub fn is_working(&self) -> bool { unimplemented!() }
+    #[verus_verify(external_body)]
+    #[verus_spec(r => ensures r == !self.working)]
+    pub fn is_available(&self) -> bool { unimplemented!() }
+    #[verus_verify(external_body)]
+    #[verus_spec(
+        with Tracked(log): Tracked<&mut EffectLog>
+        ensures final(log).s == old(log).s.push(Effect::SetDraining(old(self).wid, d)), final(self).is_draining == d,
+            final(self).wid == old(self).wid, final(self).actor == old(self).actor, final(self).working == old(self).working,
+    )]
+    pub fn set_draining(&mut self, d: bool) { unimplemented!() }
+}
+#[verus_verify]
+impl<K: JobKey, M: Message> WorkerRef<K, M> {
+    #[verus_verify(external_body)]
+    #[verus_spec(
+        with Tracked(log): Tracked<&mut EffectLog>
+        ensures final(log).s == old(log).s.push(Effect::StopActor(self.aid())),
+    )]
+    pub fn stop(&self, reason: Option<String>) { unimplemented!() }
+}
+#[verus_verify]
+impl ActorIndex {
+    #[verus_verify(external_body)]
+    #[verus_spec(r =>
+        with Tracked(log): Tracked<&mut EffectLog>
+        ensures final(log).s == old(log).s.push(Effect::IndexRemove(k@)),
+    )]
+    pub fn remove(&mut self, k: &ActorId) -> Option<WorkerId> { unimplemented!() }
+}
+#[verus_verify]
+impl<K: JobKey, M: Message> Pool<K, M> {
+    /// A-std (HashMap::get_mut): the record stored under `k`, if any; its `wid` field is its key
+    #[verus_verify(external_body)]
+    #[verus_spec(r => ensures r is Some <==> old(self).has(*k), r matches Some(w) ==> w.wid == *k && w.is_draining == old(self).draining(*k), final(self)@ == old(self)@)]
+    pub fn get_mut(&mut self, k: &WorkerId) -> Option<&mut WorkerProperties<K, M>> { unimplemented!() }
+    #[verus_verify(external_body)]
+    #[verus_spec(r => ensures r matches Some(w) ==> w.wid == *k)]
+    pub fn get(&self, k: &WorkerId) -> Option<&WorkerProperties<K, M>> { unimplemented!() }
+    #[verus_verify(external_body)]
+    #[verus_spec(r =>
+        with Tracked(log): Tracked<&mut EffectLog>
+        ensures
+            r matches Some(w) ==> w.wid == *k && final(log).s == old(log).s.push(Effect::PoolRemove(*k, w.actor.aid())),
+            r is None ==> final(log).s == old(log).s,
+            final(self)@ == old(self)@,
+    )]
+    pub fn remove(&mut self, k: &WorkerId) -> Option<WorkerProperties<K, M>> { unimplemented!() }
+    #[verus_verify(external_body)]
+    #[verus_spec(r => ensures r matches PoolEntry::Occupied(o) ==> o.wid() == k, final(self)@ == old(self)@)]
+    pub fn entry(&mut self, k: WorkerId) -> PoolEntry<'_, K, M> { unimplemented!() }
+    #[verus_verify(external_body)]
+    #[verus_spec(r => ensures r.pool_all_available() == self.all_available())]
+    pub fn values(&self) -> PoolValues<'_, K, M> { unimplemented!() }
+}
+#[verus_verify]
+impl<'a, K: JobKey, M: Message> OccupiedEntry<'a, K, M> {
+    #[verus_verify(external_body)]
+    #[verus_spec(r => ensures r.wid == old(self).wid(), r.actor.aid() == old(self).aid(), final(self).wid() == old(self).wid(), final(self).aid() == old(self).aid())]
+    pub fn get_mut(&mut self) -> &mut WorkerProperties<K, M> { unimplemented!() }
+    #[verus_verify(external_body)]
+    #[verus_spec(r =>
+        with Tracked(log): Tracked<&mut EffectLog>
+        ensures r.wid == self.wid(), r.actor.aid() == self.aid(), final(log).s == old(log).s.push(Effect::PoolRemove(self.wid(), self.aid())),
+    )]
+    pub fn remove(self) -> WorkerProperties<K, M> { unimplemented!() }
+}
+
+/// FactoryState::try_route_next_active_job is NOT under contract (closures borrowing `self.router` mutably, rejected by
+/// Verus): trusted signature; it may route/reject queued jobs but does not touch the pool size, drain state or settings
+#[verus_verify]
+impl<TKey: JobKey, TMsg: Message, TRouter: Router<TKey, TMsg>, TQueue: Queue<TKey, TMsg>> FactoryState<TKey, TMsg, TRouter, TQueue> {
+    #[verus_verify(external_body)]
+    #[verus_spec(r =>
+        with Tracked(log): Tracked<&mut EffectLog>
+        ensures final(log).s == old(log).s.push(Effect::RouteNext(worker_hint)),
+            final(self).pool_size == old(self).pool_size, final(self).drain_state == old(self).drain_state,
+            final(self).router.notes() == old(self).router.notes(),
+    )]
+    pub fn try_route_next_active_job(&mut self, worker_hint: Option<WorkerId>) -> Result<(), ActorProcessingErr> { unimplemented!() }
 }
